@@ -161,7 +161,34 @@ theorem safelink_confirmed_by_peer (n : Nat) (p : Peer) (hp : p.Fresh) (ops : Li
   intro s hs
   exact (dataInv_of_safelink n p hp ops wf hs).ps
 
+/-! ## Several links sharing one Crazyradio (`RadioManager` / `_SharedRadio`) -/
+
+theorem gen_shared_radio :
+    Gen.C01.openInstanceStmts = ["instance_id = self._next_instance_id", "self._rsp_queues[instance_id] = rsp_queue",
+      "self._next_instance_id += 1"] ∧ Gen.C01.nextInstanceInit = "0" ∧
+    Gen.C01.instanceCtorArgs = ["instance_id", "self._cmd_queue", "rsp_queue"] ∧
+    Gen.C01.sharedDel = ["del self._rsp_queues[command[0]]"] ∧
+    Gen.C01.sharedAckPut = ["self._rsp_queues[command[0]].put(ack)"] ∧
+    Gen.C01.instanceSendGet = ["self._rsp_queue.get()"] := by decide
+
+/-- Whatever the order in which links on one dongle are opened and closed, the answer to a live link's transmission is
+put into that link's own response queue, and no two live links share an instance id.  Hence every link runs the
+single-link protocol of the theorems above on its own sequence of transmissions and answers. -/
+theorem acks_routed_to_sender (ops : List ShOp) :
+    let l := Links.init.run ops
+    (∀ p ∈ l.live, l.sh.route p.2 = some p.1) ∧
+    (∀ p ∈ l.live, ∀ p' ∈ l.live, p.2 = p'.2 → p.1 = p'.1) := by
+  have h : LinksInv (Links.init.run ops) := linksInv_run (by intro p hp; cases hp) ops
+  refine ⟨fun p hp => (h p hp).2, fun p hp p' hp' e => ?_⟩
+  have h1 := (h p hp).2
+  have h2 := (h p' hp').2
+  rw [e, h2] at h1
+  simpa using h1.symm
+
 /-! ## Non-vacuity: concrete instances -/
+
+example : (Links.init.run [.open 0, .open 1, .close 0, .open 2]).live = [(2, 2), (1, 1)] := by decide
+
 
 /-- the 12-operation run used below: all three outcomes, two submissions (the second one blocks), one downlink packet -/
 def demoOps : List SysOp :=
